@@ -119,6 +119,9 @@ def main():
         else:
             sh(['git', '-C', '/repo', 'worktree', 'remove', '--force', wt])
             shutil.rmtree(wt, ignore_errors=True)
+    notes_p = os.path.join(VERIF, 'seeded', 'strengthening_notes.json')
+    if os.path.exists(notes_p):
+        meta['history'] = json.load(open(notes_p)).get(sid, 'reported by its own property check as built (no strengthening needed)')
     d = os.path.join(VERIF, 'seeded', sid)
     os.makedirs(d, exist_ok=True)
     shutil.copy(diff, os.path.join(d, 'patch.diff'))
